@@ -1,9 +1,372 @@
 package main
 
-import "golang.org/x/tools/go/ssa"
+// Summarising pure callees: a small, loop-free, side-effect-free function
+// (comparison functions, predicates, min/max helpers) is evaluated on both
+// sides of a symbolic branch and its results are merged into an ite term, so
+// that calling it does not fork the path. Any operation that would need a
+// fork, could fault, or has an effect aborts the attempt and the function is
+// executed normally.
 
-// tryMerged evaluates small pure loop-free functions without forking
-// (summarising pure callees). Filled in later.
-func (ex *Exec) tryMerged(fn *ssa.Function, args []Value, env []Value) (Value, bool) {
-	return nil, false
+import (
+	"go/token"
+	"go/types"
+
+	"golang.org/x/tools/go/ssa"
+)
+
+type mergeInfo struct{ ok bool }
+
+func (p *Program) mergeable(fn *ssa.Function) bool {
+	if v, ok := p.merge.Load(fn); ok {
+		return v.(bool)
+	}
+	ok := staticMergeable(fn)
+	p.merge.Store(fn, ok)
+	return ok
 }
+
+func staticMergeable(fn *ssa.Function) bool {
+	if fn.Blocks == nil || len(fn.Blocks) > 32 || fn.Recover != nil {
+		return false
+	}
+	if fn.TypeParams().Len() > 0 && len(fn.TypeArgs()) == 0 {
+		return false
+	}
+	nIf := 0
+	// acyclic?
+	state := make([]int, len(fn.Blocks))
+	var cyc func(b *ssa.BasicBlock) bool
+	cyc = func(b *ssa.BasicBlock) bool {
+		state[b.Index] = 1
+		for _, s := range b.Succs {
+			if state[s.Index] == 1 {
+				return true
+			}
+			if state[s.Index] == 0 && cyc(s) {
+				return true
+			}
+		}
+		state[b.Index] = 2
+		return false
+	}
+	if cyc(fn.Blocks[0]) {
+		return false
+	}
+	for _, b := range fn.Blocks {
+		for _, in := range b.Instrs {
+			switch in := in.(type) {
+			case *ssa.If:
+				nIf++
+			case *ssa.BinOp, *ssa.Phi, *ssa.Jump, *ssa.Return, *ssa.Field, *ssa.Extract, *ssa.ChangeType,
+				*ssa.DebugRef, *ssa.FieldAddr, *ssa.IndexAddr, *ssa.Index, *ssa.Convert:
+			case *ssa.UnOp:
+				if in.Op == token.ARROW {
+					return false
+				}
+			case *ssa.Call:
+				if in.Call.IsInvoke() {
+					return false
+				}
+				switch c := in.Call.Value.(type) {
+				case *ssa.Builtin:
+					switch c.Name() {
+					case "len", "cap", "min", "max":
+					default:
+						return false
+					}
+				}
+			default:
+				return false
+			}
+		}
+	}
+	return nIf > 0
+}
+
+type mergeBail struct{}
+
+type mframe struct {
+	fn     *ssa.Function
+	env    map[ssa.Value]Value
+	budget *int
+}
+
+func (ex *Exec) tryMerged(fn *ssa.Function, args []Value, env []Value) (res Value, ok bool) {
+	if ex.merging > 0 || ex.noMerge || !ex.w.prog.mergeable(fn) {
+		return nil, false
+	}
+	// only worthwhile when some input is symbolic
+	ex.merging++
+	steps := ex.steps
+	defer func() {
+		ex.merging--
+		if r := recover(); r != nil {
+			switch r.(type) {
+			case mergeBail, noMerge:
+				ex.steps = steps
+				res, ok = nil, false
+			default:
+				panic(r)
+			}
+		}
+	}()
+	budget := 400
+	return ex.mergedCall(fn, args, env, &budget), true
+}
+
+func (ex *Exec) mergedCall(fn *ssa.Function, args []Value, env []Value, budget *int) Value {
+	mf := &mframe{fn: fn, env: make(map[ssa.Value]Value, 16), budget: budget}
+	if len(fn.Locals) > 0 {
+		panic(mergeBail{})
+	}
+	for i, p := range fn.Params {
+		mf.env[p] = args[i]
+	}
+	for i, fv := range fn.FreeVars {
+		mf.env[fv] = env[i]
+	}
+	ex.funcs[fn] = true
+	return ex.mergedBlock(mf, fn.Blocks[0], nil)
+}
+
+func (mf *mframe) get(ex *Exec, key ssa.Value) Value {
+	switch key := key.(type) {
+	case nil:
+		return nil
+	case *ssa.Function, *ssa.Builtin:
+		return key
+	case *ssa.Const:
+		return constValue(key)
+	case *ssa.Global:
+		return ex.global(key)
+	}
+	if r, ok := mf.env[key]; ok {
+		return r
+	}
+	panic(engineError("merged get: no value for " + key.Name()))
+}
+
+func (ex *Exec) mergedBlock(mf *mframe, b, prev *ssa.BasicBlock) Value {
+	for {
+		*mf.budget--
+		if *mf.budget < 0 {
+			panic(mergeBail{})
+		}
+		// phis
+		i := 0
+		if prev != nil {
+			predIndex := -1
+			for k, p := range b.Preds {
+				if p == prev {
+					predIndex = k
+				}
+			}
+			var temps []Value
+			for ; i < len(b.Instrs); i++ {
+				phi, ok := b.Instrs[i].(*ssa.Phi)
+				if !ok {
+					break
+				}
+				temps = append(temps, mf.get(ex, phi.Edges[predIndex]))
+			}
+			for k := 0; k < i; k++ {
+				mf.env[b.Instrs[k].(*ssa.Phi)] = temps[k]
+			}
+		}
+		var next *ssa.BasicBlock
+		for ; i < len(b.Instrs); i++ {
+			ex.steps++
+			switch in := b.Instrs[i].(type) {
+			case *ssa.DebugRef:
+			case *ssa.BinOp:
+				mf.env[in] = ex.binop(in.Op, in.X.Type(), in.Y.Type(), mf.get(ex, in.X), mf.get(ex, in.Y))
+			case *ssa.UnOp:
+				mf.env[in] = ex.unop(in, mf.get(ex, in.X))
+			case *ssa.ChangeType:
+				mf.env[in] = mf.get(ex, in.X)
+			case *ssa.Convert:
+				_, ok1 := basicInt(in.X.Type().Underlying())
+				_, ok2 := basicInt(in.Type().Underlying())
+				if !ok1 || !ok2 {
+					panic(mergeBail{})
+				}
+				mf.env[in] = ex.conv(nil, nil, in.Type(), in.X.Type(), mf.get(ex, in.X))
+			case *ssa.Field:
+				mf.env[in] = mf.get(ex, in.X).(Struct)[in.Field]
+			case *ssa.Extract:
+				mf.env[in] = mf.get(ex, in.Tuple).(tuple)[in.Index]
+			case *ssa.FieldAddr:
+				p, ok := mf.get(ex, in.X).(*Value)
+				if !ok || p == nil {
+					panic(mergeBail{})
+				}
+				mf.env[in] = &(*p).(Struct)[in.Field]
+			case *ssa.IndexAddr:
+				x := mf.get(ex, in.X)
+				var base []Value
+				switch x := x.(type) {
+				case []Value:
+					base = x
+				case *Value:
+					if x == nil {
+						panic(mergeBail{})
+					}
+					base = (*x).(Array)
+				default:
+					panic(mergeBail{})
+				}
+				ik, _ := basicInt(in.Index.Type())
+				mf.env[in] = ex.indexAddr(base, mf.get(ex, in.Index), ik)
+			case *ssa.Index:
+				x := mf.get(ex, in.X)
+				ik, _ := basicInt(in.Index.Type())
+				var base []Value
+				switch x := x.(type) {
+				case Array:
+					base = x
+				case string, *SymStr:
+					base = strBytes(x)
+				default:
+					panic(mergeBail{})
+				}
+				mf.env[in] = ex.loadFrom(in.Type(), ex.indexAddr(base, mf.get(ex, in.Index), ik))
+			case *ssa.Call:
+				var args []Value
+				for _, a := range in.Call.Args {
+					args = append(args, mf.get(ex, a))
+				}
+				switch f := mf.get(ex, in.Call.Value).(type) {
+				case *ssa.Builtin:
+					mf.env[in] = ex.callBuiltin(nil, f, args)
+				case *ssa.Function:
+					if f == nil || !ex.mergeableCallee(f) {
+						panic(mergeBail{})
+					}
+					mf.env[in] = ex.mergedCall(f, args, nil, mf.budget)
+				case *closure:
+					if !ex.mergeableCallee(f.Fn) {
+						panic(mergeBail{})
+					}
+					mf.env[in] = ex.mergedCall(f.Fn, args, f.Env, mf.budget)
+				default:
+					panic(mergeBail{})
+				}
+			case *ssa.Jump:
+				next = b.Succs[0]
+			case *ssa.If:
+				c := mf.get(ex, in.Cond)
+				switch c := c.(type) {
+				case bool:
+					if c {
+						next = b.Succs[0]
+					} else {
+						next = b.Succs[1]
+					}
+				case *Term:
+					if v, ok := ex.known(c); ok {
+						if v {
+							next = b.Succs[0]
+						} else {
+							next = b.Succs[1]
+						}
+						break
+					}
+					// evaluate both sides on copies of the environment
+					save := mf.env
+					mf.env = copyEnv(save)
+					r1 := ex.mergedBlock(mf, b.Succs[0], b)
+					mf.env = copyEnv(save)
+					r2 := ex.mergedBlock(mf, b.Succs[1], b)
+					mf.env = save
+					return ex.mergeResults(mf.fn, c, r1, r2)
+				}
+			case *ssa.Return:
+				switch len(in.Results) {
+				case 0:
+					return nil
+				case 1:
+					return mf.get(ex, in.Results[0])
+				}
+				res := make(tuple, len(in.Results))
+				for k, r := range in.Results {
+					res[k] = mf.get(ex, r)
+				}
+				return res
+			default:
+				panic(mergeBail{})
+			}
+		}
+		if next == nil {
+			panic(engineError("merged block without terminator"))
+		}
+		prev, b = b, next
+	}
+}
+
+func (ex *Exec) mergeableCallee(f *ssa.Function) bool {
+	if ex.w.prog.intrinsic(f) != nil {
+		return false
+	}
+	if f.Blocks == nil {
+		return false
+	}
+	if ex.w.prog.mergeable(f) {
+		return true
+	}
+	// straight-line pure callee (no If) is fine too
+	return straightLinePure(ex.w.prog, f)
+}
+
+func straightLinePure(p *Program, f *ssa.Function) bool {
+	if v, ok := p.straight.Load(f); ok {
+		return v.(bool)
+	}
+	ok := len(f.Blocks) == 1 && f.Recover == nil
+	if ok {
+		for _, in := range f.Blocks[0].Instrs {
+			switch in := in.(type) {
+			case *ssa.BinOp, *ssa.Return, *ssa.Field, *ssa.Extract, *ssa.ChangeType, *ssa.DebugRef, *ssa.FieldAddr, *ssa.IndexAddr, *ssa.Index, *ssa.Convert:
+			case *ssa.UnOp:
+				if in.Op == token.ARROW {
+					ok = false
+				}
+			case *ssa.Call:
+				if in.Call.IsInvoke() {
+					ok = false
+				}
+				if b, isB := in.Call.Value.(*ssa.Builtin); isB {
+					switch b.Name() {
+					case "len", "cap", "min", "max":
+					default:
+						ok = false
+					}
+				}
+			default:
+				ok = false
+			}
+		}
+	}
+	p.straight.Store(f, ok)
+	return ok
+}
+
+func copyEnv(m map[ssa.Value]Value) map[ssa.Value]Value {
+	out := make(map[ssa.Value]Value, len(m)+8)
+	for k, v := range m {
+		out[k] = v
+	}
+	return out
+}
+
+func (ex *Exec) mergeResults(fn *ssa.Function, c *Term, r1, r2 Value) Value {
+	res := fn.Signature.Results()
+	switch res.Len() {
+	case 0:
+		return nil
+	case 1:
+		return ex.mergeValues(res.At(0).Type(), c, r1, r2)
+	}
+	return ex.mergeValues(res, c, r1, r2)
+}
+
+var _ types.Type
